@@ -9,7 +9,12 @@ Tie (every case is a kernel-checked Coq goal on exact dyadic inputs / outputs):
     Hist1D.histogram, multi_sampling (synthetic streams and ConfigLoader.generate_toy /
     generate_toy_p with the RNG and the proposal stream captured): exact rational evaluation of
     the model inside Coq (vm_compute) compared with what the code returned.
-Statistical part (chi^2 of generated samples, false-alarm 1e-9): thorough tier / search support only.
+Statistical part (chi^2 of generated samples, false-alarm 1e-9): thorough tier / search support only, except the
+acceptance-rejection mean test of density_cases (6.1 sigma, decides).
+Direct (model-independent) checks: InterpND/InterpNDHist cell probabilities vs integral of the interpolant, AdaptiveBound
+one-bin-per-event and near-equal populations, Hist1D +/- vs histogram of the merged sample, scale_to aliasing,
+applications.gen_data particle order.  Open findings (fixed reproducers): multi_sampling / bound-from-accepted-batch,
+AdaptiveBound.base_bound / absolute-1e-6-pad.
 """
 import contextlib
 import io
@@ -82,6 +87,11 @@ def gen_grid(rnd, kind):
         for i in range(n):
             r = rnd.random()
             ys.append(ys[-1] if r < 0.4 else (ys[-1] + 1e-11 * (xs[i + 1] - xs[i]) if r < 0.6 else rnd.uniform(0.5, 2.0)))
+    elif kind == "tiny":       # slopes just above the clamp (1.5e-10 .. 3e-8): the naive inverse (sqrt(D)-b)/k cancels there
+        ys = [rnd.uniform(0.5, 2.0)]
+        for i in range(n):
+            sl = rnd.choice([-1.0, 1.0]) * 10 ** rnd.uniform(-9.8, -7.5)
+            ys.append(ys[-1] + sl * (xs[i + 1] - xs[i]) if rnd.random() < 0.7 else rnd.uniform(0.5, 2.0))
     else:                      # integer-ish
         ys = [float(rnd.randrange(0, 4)) for _ in xs]
         ys[-1] = max(ys[-1], 1.0)
@@ -89,7 +99,10 @@ def gen_grid(rnd, kind):
     return np.array(xs), np.array(ys)
 
 
+LI_KINDS = ["positive", "zeros", "tiny", "flat", "int"]
 LI_CORPUS = [
+    # slope 2e-10, just above the clamp: (sqrt(D)-b)/k lost 4e-7 of the cumulative function before the cancellation-free inverse
+    ("corpus-tiny-slope", [0.0, 1.0, 2.0], [1.0, 1.0 + 2e-10, 1.0 + 4e-10]),
     # zero first node whose discriminant at u = 0 rounds to -2.2e-16 (nan before /repo commit 4bd73c9)
     ("corpus-zero-node", [-1.4625430235503951, -0.17613579183826933, 0.9931486747289904], [0.0, 0.9886863694964385, 1.6376747351482408]),
     # leading zero-integral bin: u = 0 sits exactly on int_step[0] = 0 (digitize side: must skip the empty bin)
@@ -103,7 +116,7 @@ def li_cases(ctx, rnd, n_grids, n_u):
     from tf_pwa.generator.linear_interpolation import LinearInterp
     cases = []
     for g in range(n_grids + len(LI_CORPUS)):
-        kind = ["positive", "zeros", "flat", "int"][g % 4]
+        kind = LI_KINDS[g % len(LI_KINDS)]
         x, y = gen_grid(rnd, kind)
         if g >= n_grids:
             kind, x, y = LI_CORPUS[g - n_grids]
@@ -230,6 +243,66 @@ def product_bits(n):
     return [list(t) for t in itertools.product([0, 1], repeat=n)]
 
 
+def cell_volumes(grids):
+    vol = np.ones([len(a) - 1 for a in grids])
+    for j, a in enumerate(grids):
+        sh = [1] * len(grids); sh[j] = -1
+        vol = vol * np.diff(np.asarray(a, dtype=float)).reshape(sh)
+    return vol
+
+
+def nd_cell_probability_check(ctx, cid, grids, z, int_all, meta0, site):
+    """probability of a cell under generate() (sum of its corner weights / total) against the exact integral of the
+    multilinear interpolant over that cell (mean of the corner values * cell volume) / total integral"""
+    import itertools
+    nd = len(grids)
+    ctx.evaluations += 1
+    w = int_all.reshape([2 ** nd] + [len(a) - 1 for a in grids]).sum(axis=0)
+    mean = np.zeros_like(w)
+    for sl in itertools.product([slice(0, -1), slice(1, None)], repeat=nd):
+        mean = mean + z[sl] / 2 ** nd
+    ex = mean * cell_volumes(grids)
+    pw, pe = w / w.sum(), ex / ex.sum()
+    if not np.allclose(pw, pe, rtol=1e-12, atol=1e-14):
+        i = np.unravel_index(int(np.argmax(np.abs(pw - pe))), pw.shape)
+        ctx.fail("interp_nd", cid, "generate() selects cell %s with probability %.6g, the interpolated density integrates to %.6g there" % (list(map(int, i)), pw[i], pe[i]),
+                 inp=meta0, site=site, fingerprint="cell-volume",
+                 failing_input=dict(meta0, call="%s: P(cell) from int_all vs integral of __call__ over the cell" % meta0["function"], cell=[int(k) for k in i],
+                                    probability_generate=float(pw[i]), probability_density=float(pe[i])))
+        return False
+    return True
+
+
+def ndhist_cases(ctx, g, grids, z, gq, meta0):
+    """InterpNDHist (piecewise constant = max corner per cell): int_step = cumsum(coeffs * cell volume)"""
+    from tf_pwa.generator.interp_nd import InterpNDHist
+    import itertools
+    h = InterpNDHist(grids, z)
+    meta = dict(meta0, function="InterpNDHist")
+    co = np.array(h.coeffs, dtype=float)
+    mx = np.zeros_like(co)
+    for sl in itertools.product([slice(0, -1), slice(1, None)], repeat=len(grids)):
+        mx = np.maximum(mx, z[sl])
+    ctx.evaluations += 1
+    ctx.count("interp_nd_hist:dim=%d" % len(grids))
+    if not np.array_equal(co, mx):
+        ctx.fail("interp_nd", "nhC%d" % g, "InterpNDHist.coeffs is not the largest corner value of each cell", inp=meta, site="InterpNDHist.build_coeffs", fingerprint="coeffs",
+                 failing_input=dict(meta, coeffs=co.tolist(), expected=mx.tolist()))
+    ist = np.array(h.int_step, dtype=float)
+    # cell probabilities against the density InterpNDHist.__call__ describes (coeffs on the cell)
+    w = np.diff(np.concatenate([[0.0], ist])).reshape(co.shape)
+    ex = co * cell_volumes(grids)
+    if not np.allclose(w / w.sum(), ex / ex.sum(), rtol=1e-12, atol=1e-14):
+        i = np.unravel_index(int(np.argmax(np.abs(w / w.sum() - ex / ex.sum()))), w.shape)
+        ctx.fail("interp_nd", "nhV%d" % g, "InterpNDHist.generate() selects cell %s with probability %.6g, the density integrates to %.6g there" % (list(map(int, i)), (w / w.sum())[i], (ex / ex.sum())[i]),
+                 inp=meta, site="InterpNDHist.intgral_step", fingerprint="cell-volume",
+                 failing_input=dict(meta, call="InterpNDHist: P(cell) from int_step vs coeffs * cell volume", cell=[int(k) for k in i],
+                                    probability_generate=float((w / w.sum())[i]), probability_density=float((ex / ex.sum())[i])))
+    tol = Qq(Fraction(1, 10 ** 12) * frac(float(abs(ist[-1])) + 1))
+    return [("nhS%d" % g, "qlist_close (qcumsum 0 (ndh_weights %s %s)) %s %s = true" % (gq, qlist(co.flatten()), qlist(ist), tol), VM,
+             dict(meta, site="InterpNDHist.intgral_step", what="int_step = cumsum(max corner * cell volume)", impl=ist.tolist()))]
+
+
 def nd_cases(ctx, rnd, n_grids, n_ev):
     """returns (q_cases, r_cases)"""
     from tf_pwa.generator.interp_nd import InterpND
@@ -247,6 +320,9 @@ def nd_cases(ctx, rnd, n_grids, n_ev):
         if g == 1:   # the deterministic corner-order probe: one cell, a single non-zero mixed corner
             grids = [np.array([0.0, 1.0]), np.array([0.0, 1.0])]; shape = [2, 2]
             z = np.array([[0.0, 0.0], [1.0, 0.0]])
+        elif g == 0:  # the deterministic cell-volume probe: constant density on nodes 0, 1, 3 (first cell must get 1/3, not 1/2)
+            grids = [np.array([0.0, 1.0, 3.0])]; shape = [3]
+            z = np.array([1.0, 1.0, 1.0])
         else:
             z = np.array([rnd.choice([0.0, rnd.uniform(0.1, 2.0), float(rnd.randrange(1, 4))]) for _ in range(int(np.prod(shape)))]).reshape(shape)
             if z.sum() == 0:
@@ -259,10 +335,16 @@ def nd_cases(ctx, rnd, n_grids, n_ev):
         ia = np.array(f.int_all).flatten()
         ist = np.array(f.int_step)
         # tables: int_all exact, int_step = cumsum within rounding, transform table (corner pairing)
-        qc.append(("ndA%d" % g, "qlist_close (nd_int_all %s %s) %s 0 = true" % (nodes, zq, qlist(ia)), VM,
-                   dict(meta0, site="InterpND.intgral_step", what="int_all", impl=ia.tolist())))
-        qc.append(("ndS%d" % g, "qlist_close (qcumsum 0 (nd_int_all %s %s)) %s %s = true" % (nodes, zq, qlist(ist), Qq(Fraction(1, 10 ** 12) * frac(float(abs(ist[-1])) + 1))), VM,
+        gq = "[" + ";".join(qlist(a) for a in grids) + "]"
+        tol_a = Qq(Fraction(1, 10 ** 12) * frac(float(abs(ist[-1])) + 1))
+        # corner weights = z / 2^n * cell volume (the model of the repaired intgral_step; the grids are non-uniform)
+        qc.append(("ndA%d" % g, "qlist_close (nd_int_all_vol %s %s) %s %s = true" % (gq, zq, qlist(ia), tol_a), VM,
+                   dict(meta0, site="InterpND.intgral_step", what="int_all = corner value / 2^n * cell volume", impl=ia.tolist())))
+        qc.append(("ndS%d" % g, "qlist_close (qcumsum 0 (nd_int_all_vol %s %s)) %s %s = true" % (gq, zq, qlist(ist), tol_a), VM,
                    dict(meta0, site="InterpND.intgral_step", what="int_step", impl=ist.tolist())))
+        # the property itself, independent of the model: probability of every cell = integral of the interpolant over it
+        nd_cell_probability_check(ctx, "ndV%d" % g, grids, z, np.array(f.int_all), meta0, "InterpND.intgral_step")
+        qc += ndhist_cases(ctx, g, grids, z, gq, meta0)
         co = np.array(f.coeffs)
         bits_impl = [[1 if (co[p, j, 0] == 0.0 and co[p, j, 1] == 1.0) else (0 if (co[p, j, 0] == 1.0 and co[p, j, 1] == -1.0) else 7) for j in range(nd)] for p in range(2 ** nd)]
         tbl = "[" + ";".join(blist([bb == 1 for bb in row]) for row in bits_impl) + "]"
@@ -319,6 +401,7 @@ def qboxes(bounds):
     return "[" + ";".join("[" + ";".join("(%s,%s)" % (Qq(l), Qq(r)) for l, r in zip(np.atleast_1d(lb), np.atleast_1d(rb))) + "]" for lb, rb in bounds) + "]"
 
 
+AB_KINDS = ["uniform", "gauss", "grid", "f32big", "tiny", "f64big"]
 LAYOUTS = [(1, 3), (1, [[4]]), (1, [[2], [3]]), (2, [[2, 2]]), (2, [[3, 2]]), (2, [[2, 2], [2, 2]]), (3, [[2, 2, 2]]), (2, [[2, 3], [2, 1]]), (1, 5), (3, [[2, 1, 3]])]
 
 
@@ -340,7 +423,10 @@ def ab_cases(ctx, rnd, n_cases, n_pts):
     for g in range(n_cases):
         ndim, bins = LAYOUTS[g % len(LAYOUTS)]
         n = rnd.randrange(max(8, n_pts // 3), n_pts)
-        kind = ["uniform", "gauss", "grid"][g % 3]
+        # regular stream (stated rule): float64 data of size O(1) whose distinct values are > 1e-4 apart, the regime in which the
+        # code's ABSOLUTE 1e-6 pad of the upper edges is both representable and harmless.  Outside it (float32 data >= 32, float64
+        # data >= 1.7e10, data closer than 1e-6) the code loses events / balance: open finding, fixed reproducer ab_known_case.
+        kind = AB_KINDS[(g + g // len(LAYOUTS)) % 3]
         def col(draw):   # distinct values, gaps well above the code's 1e-6 edge offset
             while True:
                 c = [draw() for _ in range(n)]
@@ -351,14 +437,22 @@ def ab_cases(ctx, rnd, n_cases, n_pts):
             data = np.array([col(lambda: rnd.uniform(-1, 3)) for _ in range(ndim)])
         elif kind == "gauss":
             data = np.array([col(lambda: rnd.gauss(0.5, 1.0)) for _ in range(ndim)])
-        else:   # distinct multiples of 1/64 (exact dyadics)
+        elif kind == "grid":   # distinct multiples of 1/64 (exact dyadics)
             data = np.array([[v / 64.0 for v in rnd.sample(range(-300, 600), n)] for _ in range(ndim)])
+        elif kind == "f32big":   # float32 values 1000 .. 4000 (masses in MeV): half an ulp is 1.2e-4, an absolute 1e-6 pad is lost
+            data = np.array([[v / 2.0 for v in rnd.sample(range(2000, 8000), n)] for _ in range(ndim)], dtype=np.float32)
+        elif kind == "tiny":     # values below 4e-6, distinct multiples of 2^-30: an absolute 1e-6 pad is a quarter of the range
+            data = np.array([[v * 2.0 ** -30 for v in rnd.sample(range(0, 4000), n)] for _ in range(ndim)])
+        else:                    # float64 values 1e10 .. 1e11, distinct multiples of 1024
+            data = np.array([[v * 1024.0 for v in rnd.sample(range(10 ** 7, 10 ** 8), n)] for _ in range(ndim)])
         ctx.count("adaptive:%s:dim=%d" % (kind, ndim))
+        dmin, dmax = float(data.min()), float(data.max())
+        span = dmax - dmin
         arg = data[0] if isinstance(bins, int) else data
         ab = AdaptiveBound(arg, bins)
         bounds = ab.get_bounds()
         masks = [np.array(m, dtype=bool) for m in ab.get_bool_mask(data)]
-        probe = np.array([[rnd.uniform(-4, 5) for _ in range(12)] for _ in range(ndim)])
+        probe = np.array([[rnd.uniform(dmin - 0.2 * span, dmax + 0.2 * span) for _ in range(12)] for _ in range(ndim)], dtype=data.dtype)
         # a probe sitting exactly on implementation edges: half-open semantics
         for j in range(min(4, len(bounds))):
             lb, rb = bounds[rnd.randrange(len(bounds))]
@@ -366,6 +460,7 @@ def ab_cases(ctx, rnd, n_cases, n_pts):
         pmasks = [np.array(m, dtype=bool) for m in ab.get_bool_mask(probe)]
         nss = [[bins]] if isinstance(bins, int) else bins
         meta0 = {"function": "AdaptiveBound", "bins": bins, "ndim": ndim, "n": n, "data": data.tolist()}
+        # model of the code as it is: upper edges = percentile / max + 1e-6 (oracle `up` instantiated with up_old)
         stmt = "adaptive_case_ok %d [%s] %s %s [%s] %s [%s] = true" % (
             ndim, ";".join(nlist(ns) for ns in nss), qpoints(data), qboxes(bounds), ";".join(blist(m) for m in masks), qpoints(probe), ";".join(blist(m) for m in pmasks))
         qc.append(("abM%d" % g, stmt, VM, dict(meta0, site="AdaptiveBound.get_bool_mask", what="bounds = model split; masks = half-open boxes; each base event in exactly one bin",
@@ -374,20 +469,56 @@ def ab_cases(ctx, rnd, n_cases, n_pts):
         parts = ab.split_data(data)
         ok = len(parts) == len(masks) and all(np.array_equal(np.array(p), data[..., m]) for p, m in zip(parts, masks))
         ctx.evaluations += 1
-        if not ok or sum(int(m.sum()) for m in masks) != n:
-            ctx.fail("adaptive_bins", "abD%d" % g, "split_data does not return each event exactly once", inp=meta0, site="AdaptiveBound.split_data", fingerprint="split_data",
-                     failing_input=dict(meta0, part_sizes=[int(np.array(p).shape[-1]) for p in parts], mask_sizes=[int(m.sum()) for m in masks]))
+        per_event = np.sum(np.array(masks, dtype=int), axis=0)
+        if not ok or sum(int(m.sum()) for m in masks) != n or np.any(per_event != 1):
+            lost = [int(i) for i in np.where(per_event != 1)[0][:5]]
+            ctx.fail("adaptive_bins", "abD%d" % g, "split_data does not return each event exactly once (events %s are in %s bins)" % (lost, [int(per_event[i]) for i in lost]),
+                     inp=meta0, site="AdaptiveBound.split_data", fingerprint="split_data",
+                     failing_input=dict(meta0, call="AdaptiveBound(data, bins).get_bool_mask(data): number of bins holding each event", dtype=str(data.dtype),
+                                        part_sizes=[int(np.array(p).shape[-1]) for p in parts], mask_sizes=[int(m.sum()) for m in masks],
+                                        events_not_in_exactly_one_bin=[data[:, i].tolist() for i in lost]))
         # near-equal populations (distinct values): every split node within one of equal
         sizes = [s for ns in nss for s in ns]
         pops = [int(m.sum()) for m in masks]
         _, datas = ab.get_bounds_data()
         pops2 = [int(np.array(d).shape[-1]) for d in datas]
         trip = level_pops(pops, sizes)
+        # the property itself (distinct values): every child within one of parent / size
+        badp = [(par, s_, c) for par, s_, ch in trip for c in ch if abs(s_ * c - par) > s_]
+        ctx.evaluations += 1
+        if badp:
+            ctx.fail("adaptive_bins", "abQ%d" % g, "populations are not near-equal: a node of %d events split in %d has a child of %d" % badp[0], inp=meta0,
+                     site="AdaptiveBound.single_split_bound", fingerprint="populations",
+                     failing_input=dict(meta0, call="AdaptiveBound(data, bins): bin populations (distinct values)", dtype=str(data.dtype), populations=pops))
         st = "forallb (fun t => pop_within_one (fst (fst t)) (snd (fst t)) (snd t)) [%s] = true /\\ %s = %s" % (
             ";".join("((%d,%d),%d)%%Z" % (par, s, c) for par, s, ch in trip for c in ch), nlist(pops), nlist(pops2))
         qc.append(("abP%d" % g, st, "split; vm_compute; reflexivity", dict(meta0, site="AdaptiveBound.single_split_bound", what="populations within one of equal at every split", populations=pops, data_chain=pops2)))
         ctx.distinct.add(("ab", g))
     return qc
+
+
+SITE_F4 = "AdaptiveBound.base_bound"
+FP_F4 = "absolute-1e-6-pad"
+
+
+def ab_known_case(ctx):
+    """the shape excluded from the regular stream, one fixed input: float32 values 1000 .. 1039 (half an ulp is 3e-5, so
+    max + 1e-6 == max and the half-open last bin [.., max) does not contain the largest event of either dimension)"""
+    from tf_pwa.adaptive_bins import AdaptiveBound
+    a = np.array([(17 * i) % 40 for i in range(40)], dtype=np.float32) + np.float32(1000.0)
+    data = np.stack([a, a[::-1].copy()])
+    bins = [[2, 2]]
+    ab = AdaptiveBound(data, bins)
+    per_event = np.sum(np.array(ab.get_bool_mask(data), dtype=int), axis=0)
+    ctx.evaluations += 1
+    ctx.count("adaptive:float32 1e3 (known finding probe)")
+    if np.any(per_event != 1):
+        lost = [int(i) for i in np.where(per_event != 1)[0]]
+        meta = {"function": "AdaptiveBound", "bins": bins, "dtype": "float32", "data": data.tolist()}
+        ctx.fail("adaptive_bins", "abF4", "float32 data 1000..1039: %d of 40 events lie in no bin (events %s): max + 1e-6 == max in float32 and the bins are half open" % (len(lost), lost),
+                 inp=meta, site=SITE_F4, fingerprint=FP_F4,
+                 failing_input=dict(meta, call="AdaptiveBound(data, [[2, 2]]).get_bool_mask(data): number of bins holding each event", events_in_no_bin=[data[:, i].tolist() for i in lost],
+                                    sum_of_populations=int(per_event.sum()), expected=40))
 
 
 # ----------------------------------------------------------------------------- Hist1D.histogram
@@ -456,6 +587,202 @@ def hist_cases(ctx, rnd, n_cases, n_ev):
                                             count=cnt.tolist(), sum_w=float(sw), sum_w2=float(sw2))))
         ctx.distinct.add(("hist", g))
     return qc
+
+
+# ----------------------------------------------------------------------------- Hist1D algebra: + , - , scale_to
+def hist_algebra_cases(ctx, rnd, n_cases, n_ev):
+    """h(a) + h(b) must be the histogram of the merged sample (count, error, empty-bin marker) although empty bins carry
+    error = inf; scale_to must rescale the histogram and nothing else (no write into the caller's arrays)"""
+    import warnings
+    from tf_pwa.histogram import Hist1D, WeightedData
+    qc = []
+
+    def comp(h):
+        err = np.array(h.error, dtype=float)
+        return np.array(h.count, dtype=float), np.where(np.isinf(err), 0.0, err), [bool(b_) for b_ in np.isinf(err)]
+    for g in range(n_cases):
+        nb = rnd.randrange(2, 9)
+        kw = {"bins": nb, "range": (0.0, 2.0)}
+
+        def sample(sparse):
+            n = rnd.randrange(1, 5) if sparse else rnd.randrange(5, n_ev)
+            m = np.array([rnd.uniform(0.0, 2.0) for _ in range(n)])
+            w = np.array([rnd.randrange(-8, 33) / 8.0 for _ in range(n)]) if rnd.random() < 0.7 else None
+            return m, w
+        (m1, w1), (m2, w2) = sample(g % 2 == 0), sample(g % 3 != 1)
+        with warnings.catch_warnings():
+            warnings.simplefilter("ignore")
+            h1 = Hist1D.histogram(m1, weights=w1, **kw); h2 = Hist1D.histogram(m2, weights=w2, **kw)
+            c1, e1, f1 = comp(h1); c2, e2, f2 = comp(h2)
+            ww1 = np.ones(len(m1)) if w1 is None else w1
+            ww2 = np.ones(len(m2)) if w2 is None else w2
+            meta0 = {"function": "Hist1D.__add__/__sub__", "m1": m1.tolist(), "w1": ww1.tolist(), "m2": m2.tolist(), "w2": ww2.tolist(), "kw": kw}
+            for sign, nm in ((True, "add"), (False, "sub")):
+                hs = (h1 + h2) if sign else (h1 - h2)
+                cs, es, fs = comp(hs)
+                if np.any(np.isnan(np.array(hs.error, dtype=float))):
+                    ctx.fail("tie:Hist1D.__%s__" % nm, "ha%s%d" % (nm, g), "error is nan", inp=meta0, site="Hist1D.__add__", fingerprint="Hist1D.__add__", failing_input=dict(meta0, error=[str(v) for v in hs.error]))
+                    continue
+                ctx.count("hist_%s:one_sided_empty=%s" % (nm, any(a_ != b_ for a_, b_ in zip(f1, f2))))
+                atol2 = Fraction(1, 10 ** 11) * frac(float(np.sum(ww1 * ww1) + np.sum(ww2 * ww2)) + 1)
+                qc.append(("ha%s%d" % (nm, g), "hist_add_case_ok %s %s %s %s %s %s %s %s %s %s 0 %s = true" % (
+                    qlist(c1), qlist(e1), blist(f1), qlist(c2), qlist(e2), blist(f2), "true" if sign else "false", qlist(cs), qlist(es), blist(fs), Qq(atol2)), VM,
+                    dict(meta0, site="Hist1D.__add__", what="h1 %s h2: counts, squared errors in quadrature (an empty bin adds nothing), empty only where both are" % ("+" if sign else "-"),
+                         count=cs.tolist(), error=[str(v) for v in hs.error])))
+                # the property itself: the same as histogramming the merged sample (second sample with weights -w for __sub__)
+                hm = Hist1D.histogram(np.concatenate([m1, m2]), weights=np.concatenate([ww1, ww2 if sign else -ww2]), **kw)
+                cm, em, fm = comp(hm)
+                ctx.evaluations += 1
+                if fm != fs or not np.allclose(cm, cs, rtol=0, atol=1e-12) or not np.allclose(em, es, rtol=1e-12, atol=1e-12):
+                    sw2 = float(np.sum(ww1 * ww1) + np.sum(ww2 * ww2))
+                    ctx.fail("hist_algebra", "hm%s%d" % (nm, g), "h1 %s h2 differs from the histogram of the merged sample (sum of squared weights %r, sum of finite error^2 %r)" % ("+" if sign else "-", sw2, float(np.sum(es * es))),
+                             inp=meta0, site="Hist1D.__add__", fingerprint="empty-bin-inf",
+                             failing_input=dict(meta0, call="Hist1D.histogram(m1, weights=w1, **kw) %s Hist1D.histogram(m2, weights=w2, **kw)  vs  histogram of the merged sample" % ("+" if sign else "-"),
+                                                error_of_sum=[str(v) for v in hs.error], error_of_merged=[str(v) for v in hm.error], sum_w2=sw2))
+            # ---- scale_to
+            wa = np.array([rnd.randrange(1, 33) / 8.0 for _ in range(len(m1))]); wa0 = wa.copy()
+            wb = np.array([rnd.randrange(1, 33) / 8.0 for _ in range(len(m2))]); wb0 = wb.copy()
+            ha = WeightedData(m1, weights=wa, **kw); hb = WeightedData(m2, weights=wb, **kw)
+            cnt0, err0 = np.array(ha.count, dtype=float).copy(), np.array(ha.error, dtype=float).copy()
+            sc = float(ha.scale_to(hb))
+            cc = np.array([1.0, 2.0, 3.0]); ee = np.array([1.0, 1.5, 2.0]); cc0, ee0 = cc.copy(), ee.copy()
+            ed = np.array([0.0, 1.0, 2.0, 3.0])
+            sc2 = float(Hist1D(ed, cc, ee).scale_to(Hist1D(ed, 2 * cc0, ee0)))
+        ctx.evaluations += 1
+        ctx.count("hist_scale_to")
+        meta1 = {"function": "WeightedData.scale_to / Hist1D.scale_to", "m": m1.tolist(), "weights": wa0.tolist(), "other_m": m2.tolist(), "other_weights": wb0.tolist(), "kw": kw}
+        exp_sc = float(np.sum(wb0)) / float(np.sum(wa0))
+        if not (np.array_equal(wa, wa0) and np.array_equal(wb, wb0) and np.array_equal(cc, cc0) and np.array_equal(ee, ee0)):
+            ctx.fail("hist_algebra", "hz%d_alias" % g, "scale_to wrote into the caller's arrays: sum of the caller's weights %r -> %r, Hist1D count array %s -> %s" % (float(wa0.sum()), float(wa.sum()), cc0.tolist(), cc.tolist()),
+                     inp=meta1, site="Hist1D.scale_to", fingerprint="in-place",
+                     failing_input=dict(meta1, call="h = WeightedData(m, weights=w, **kw); h.scale_to(WeightedData(other_m, weights=other_weights, **kw)); w unchanged?",
+                                        weights_after=wa.tolist(), hist1d_count_before=cc0.tolist(), hist1d_count_after=cc.tolist()))
+        if not (abs(sc - exp_sc) <= 1e-12 * exp_sc and abs(sc2 - 2.0) < 1e-12 and np.allclose(ha.count, cnt0 * sc, rtol=1e-13, atol=0) and np.allclose(ha.error, err0 * sc, rtol=1e-13, atol=0)
+                and np.allclose(ha.weights, wa0 * sc, rtol=1e-13, atol=0) and abs(float(np.sum(ha.count)) - float(np.sum(wb0))) <= 1e-11 * float(np.sum(wb0))):
+            ctx.fail("hist_algebra", "hz%d_scale" % g, "scale_to: factor %r (expected %r) or scaled arrays wrong" % (sc, exp_sc), inp=meta1, site="Hist1D.scale_to", fingerprint="scale",
+                     failing_input=dict(meta1, call="WeightedData.scale_to", factor=sc, expected_factor=exp_sc, count=np.array(ha.count).tolist()))
+        ctx.distinct.add(("hista", g))
+    return qc
+
+
+# ----------------------------------------------------------------------------- applications.gen_data
+def gen_data_cases(ctx, rnd, orders, n_mc=600, n_data=60):
+    """file based toy generation: the amplitude must be evaluated on the very momenta (particle by particle, in the order
+    `particles` of the file) that are returned"""
+    import os, tempfile
+    import tensorflow as tf
+    from tf_pwa.applications import gen_data
+    cfg = toy_config("BWR", mass=0.5, width=0.08)
+    amp = cfg.get_amplitude()
+    outs = {str(p_): p_ for p_ in amp.decay_group.outs}
+    with contextlib.redirect_stdout(io.StringIO()):
+        pp = cfg.generate_phsp_p(n_mc)
+    pp = {str(k): np.array(v, dtype=float) for k, v in pp.items()}
+    for t, order in enumerate(orders):
+        ctx.count("gen_data:order=%s" % "".join(order))
+        ctx.evaluations += 1
+        rows = np.stack([pp[nm] for nm in order], axis=1).reshape(-1, 4)
+        seen = {}
+
+        class Spy:
+            decay_group = amp.decay_group
+
+            def __call__(self, data):
+                seen["data"] = data
+                return amp(data)
+        d = tempfile.mkdtemp(prefix="c20_gen_data_")
+        mcfile = os.path.join(d, "phsp.dat")
+        np.savetxt(mcfile, rows)
+        try:
+            tf.random.set_seed(ctx.seed * 101 + t)
+            with contextlib.redirect_stdout(io.StringIO()):
+                toy = gen_data(Spy(), Ndata=n_data, mcfile=mcfile, particles=[outs[nm] for nm in order])
+        finally:
+            os.remove(mcfile); os.rmdir(d)
+        file_p = {nm: pp[nm] for nm in order}   # np.savetxt writes %.18e: exact round trip
+        meta = {"function": "applications.gen_data", "particles": list(order), "Ndata": n_data, "mc_events": n_mc}
+        used = seen.get("data")
+        bad = None
+        for nm in order:
+            got = np.array(used["particle"][outs[nm]]["p"], dtype=float)
+            if got.shape != file_p[nm].shape or not np.allclose(got, file_p[nm], rtol=1e-12, atol=1e-12):
+                bad = nm
+                break
+        if bad is not None:
+            k = int(np.argmax(np.abs(np.array(used["particle"][outs[bad]]["p"], dtype=float) - file_p[bad]).sum(axis=1)))
+            ctx.fail("toy_density", "gd%d_order" % t, "gen_data(particles=%s) evaluates the amplitude with the momentum of another particle in the place of %s" % (list(order), bad),
+                     inp=meta, site="applications.gen_data", fingerprint="particles-order",
+                     failing_input=dict(meta, call="gen_data(amp, Ndata, mcfile, particles=order): momentum of particle %s in the data handed to amp(.) vs in the file" % bad, event=k,
+                                        p_used=np.array(used["particle"][outs[bad]]["p"], dtype=float)[k].tolist(), p_in_file=file_p[bad][k].tolist()))
+        # returned toy: exactly Ndata events, each one an event of the file (particle by particle)
+        ok = True
+        for nm in order:
+            got = np.array(toy["particle"][outs[nm]]["p"], dtype=float)
+            keys = set(tuple(r) for r in file_p[nm].round(9).tolist())
+            if got.shape != (n_data, 4) or any(tuple(r) not in keys for r in got.round(9).tolist()):
+                ok = False
+        if not ok:
+            ctx.fail("toy_count", "gd%d_ret" % t, "gen_data does not return Ndata events of the file", inp=meta, site="applications.gen_data", fingerprint="returned-events", failing_input=meta)
+        ctx.distinct.add(("gen_data", t))
+
+
+# ----------------------------------------------------------------------------- acceptance-rejection: the density
+SITE_F3 = "multi_sampling"
+FP_F3 = "bound-from-accepted-batch"
+
+
+def density_cases(ctx, quick):
+    """the sample follows the density (z-test of the mean at two-sided false alarm 1e-9 = 6.1 sigma) for density 2x on [0,1].
+    Regular stream: a valid bound is supplied (max_weight >= sup of the weights: exact acceptance-rejection, C20_valid_bound_kept),
+    or max_weight=None with a first batch of >= 1000 candidates of a density whose top 1% has probability >= 0.0199 (the chance that no
+    candidate comes within 1% of the supremum is < 1e-8.7 per run... the 1.01 margin then makes the batch bound a valid one).
+    Excluded by this rule (open finding F3): max_weight=None where the first batch may finish the request without a candidate
+    near the supremum (tiny N, narrow spikes): one fixed reproducer below."""
+    import tensorflow as tf
+    import tf_pwa.generator.generator as G
+
+    def phsp(n):
+        return {"x": tf.random.uniform((n,), dtype=tf.float64)}
+
+    def amp(d):
+        return d["x"]
+
+    def run(N, reps, **kw):
+        xs = []
+        for _ in range(reps):
+            d, _st = G.multi_sampling(phsp, amp, N, display=False, **kw)
+            x = np.array(d["x"])
+            if x.shape[0] != N:
+                return None, x.shape[0]
+            xs.append(x)
+        xs = np.concatenate(xs)
+        return xs, (float(xs.mean()) - 2.0 / 3.0) / math.sqrt(1.0 / 18.0 / len(xs))
+    plan = [("given", 3000, 2, {"max_weight": tf.constant(1.0, dtype=tf.float64)}), ("given", 1, 600, {"max_weight": tf.constant(1.25, dtype=tf.float64)}),
+            ("none", 3000, 2, {})]
+    if not quick:
+        plan += [("given", 7, 3000, {"max_weight": tf.constant(1.0, dtype=tf.float64)}), ("none", 20000, 3, {})]
+    for t, (mode, N, reps, kw) in enumerate(plan):
+        tf.random.set_seed(ctx.seed * 7919 + t)
+        xs, z = run(N, reps, **kw)
+        ctx.evaluations += 1
+        ctx.count("density:%s:N=%d" % (mode, N))
+        meta = {"function": "multi_sampling", "density": "w(x) = x on uniform x in [0,1]", "N": N, "repetitions": reps, "max_weight": mode, "tf_seed": ctx.seed * 7919 + t}
+        if xs is None:
+            ctx.fail("toy_count", "dn%d" % t, "returned %d events" % z, inp=meta, site="multi_sampling", fingerprint="count", failing_input=meta)
+        elif abs(z) > 6.1:
+            ctx.fail("toy_density", "dn%d" % t, "mean of the sample %.5f, model 0.66667: %.1f sigma" % (float(xs.mean()), z), inp=meta, site="multi_sampling", fingerprint="density",
+                     failing_input=dict(meta, call="multi_sampling(phsp, amp, N, max_weight=...): mean of x", sample_mean=float(xs.mean()), expected_mean=2.0 / 3.0, sigmas=z))
+        ctx.distinct.add(("density", t))
+    # ---- the excluded shape, fixed reproducer (open finding): N = 1, max_weight = None
+    tf.random.set_seed(20200301)
+    xs, z = run(1, 1500)
+    ctx.evaluations += 1
+    ctx.count("density:none:N=1 (known finding probe)")
+    if xs is not None and abs(z) > 6.1:
+        meta = {"function": "multi_sampling", "density": "w(x) = x on uniform x in [0,1]", "N": 1, "repetitions": 1500, "max_weight": None, "tf_seed": 20200301}
+        ctx.fail("toy_density", "dnF3", "max_weight=None, N=1: every candidate is accepted with probability 1/1.01 whatever its weight; mean of 1500 one-event toys %.4f, model 0.6667 (%.1f sigma)" % (float(xs.mean()), z),
+                 inp=meta, site=SITE_F3, fingerprint=FP_F3,
+                 failing_input=dict(meta, call="multi_sampling(phsp, amp, 1, display=False) x 1500: mean of x", sample_mean=float(xs.mean()), expected_mean=2.0 / 3.0, sigmas=z))
 
 
 # ----------------------------------------------------------------------------- multi_sampling
@@ -767,7 +1094,7 @@ def search(ctx, fails):
     rnd = random.Random(ctx.seed * 1000003 + 2020)
     if "LinearInterp" in sites or not sites.strip():
         for t in range(300):
-            kind = ["positive", "zeros", "flat", "int"][t % 4]
+            kind = LI_KINDS[t % len(LI_KINDS)]
             x, y = gen_grid(rnd, kind)
             li = LinearInterp(x, y)
             u = np.array([rnd.random() for _ in range(20)] + [0.0, 1.0])
@@ -872,7 +1199,14 @@ def run(ctx):
                 "AdaptiveBound layouts (int, [[n]], nested, 1-3 dims) on uniform / gaussian / distinct dyadic data plus probes on the edges; histograms with dyadic, float, negative, "
                 "absent weights, uniform and explicit edges, events on edges and out of range; multi_sampling with scripted weight spikes, given/absent bound, force on/off; "
                 "generate_toy / generate_toy_p of an A->R_BC D model with small max_N so that thinning happens.  distinct = distinct (object, input) cases; "
-                "non-trivial = every case compares a computed value, none is constant")
+                "non-trivial = every case compares a computed value, none is constant.  Added in the fixer round: LinearInterp slopes just above the clamp (1.5e-10..3e-8); "
+                "InterpND / InterpNDHist cell probabilities on non-uniform grids against the integral of the interpolant (model: corner value / 2^n * cell volume); AdaptiveBound direct one-bin-per-event and "
+                "near-equal-population checks (model: oracle `up` for the upper edges, instantiated with the code's + 1e-6); Hist1D + and - against the histogram of the merged "
+                "sample with one-sided empty bins, scale_to without writing into the caller's arrays; applications.gen_data with non-alphabetical particle orders (amplitude evaluated "
+                "on the momenta that are returned); acceptance-rejection density z-test (6.1 sigma) with a valid supplied bound and with max_weight=None on >= 1000 first-batch candidates.  "
+                "Excluded from the regular stream by rule: max_weight=None where the first batch can complete the request without a candidate near the supremum (N=1, narrow spikes) - "
+                "one fixed reproducer (site multi_sampling, fingerprint bound-from-accepted-batch); AdaptiveBound data outside float64 / size O(1) / gaps > 1e-4 (float32 >= 32, float64 >= 1.7e10, "
+                "values closer than 1e-6), where the absolute 1e-6 pad is lost or unbalances the bins - one fixed reproducer (site AdaptiveBound.base_bound, fingerprint absolute-1e-6-pad); sub-epsilon slopes |k| <= 1e-10 of LinearInterp are modelled as the clamp the code applies")
     common.theorem_stage(ctx)
     q = ctx.tier == "quick"
     rcases_, qcases_ = [], []
@@ -884,9 +1218,15 @@ def run(ctx):
     qcases_ += nq; rcases_ += nr
     ctx.log("+InterpND cases", len(qcases_), len(rcases_))
     qcases_ += ab_cases(ctx, rnd, 10 if q else 60, 40 if q else 120)
+    ab_known_case(ctx)
     ctx.log("+AdaptiveBound cases", len(qcases_))
     qcases_ += hist_cases(ctx, rnd, 12 if q else 120, 40 if q else 150)
     ctx.log("+Hist1D cases", len(qcases_))
+    qcases_ += hist_algebra_cases(ctx, rnd, 8 if q else 80, 30 if q else 100)
+    ctx.log("+Hist1D algebra cases", len(qcases_))
+    gen_data_cases(ctx, rnd, [["D", "B", "C"], ["B", "C", "D"]] if q else [["D", "B", "C"], ["B", "C", "D"], ["C", "D", "B"], ["B", "D", "C"]])
+    density_cases(ctx, q)
+    ctx.log("gen_data / density checks done")
     qcases_ += synthetic_ms(ctx, rnd, 8 if q else 60)
     ctx.log("+multi_sampling cases", len(qcases_))
     plan = [("generate_toy", 60, 25, 0.05), ("generate_toy_p", 77, 30, 0.05), ("generate_toy", 50, 100000, 0.2)]
@@ -926,7 +1266,11 @@ def run(ctx):
         "(acceptance region theorem + thorough-tier chi^2 at false alarm 1e-9 as support only)",
         "np.percentile is an oracle in the partition theorem (hypothesis: cut values in order between the bounds of the split box); the tie uses numpy's linear-interpolation percentile on exact rationals",
         "real-number / exact-rational model; float rounding absorbed by rtol 1e-11 (solve: 1e-9 of the grid range; accept decisions u*M < w are compared exactly: a flip needs |u*M-w| < 1 ulp)",
-        "not modelled: applications.gen_data (file based), InterpNDHist, LinearInterpImportance/interp_sample (rejection on top of LinearInterp), importance_f branch of multi_sampling"])
+        "AdaptiveBound: the upper-edge offset is an oracle `up` in the theorems (x < up x, monotone); the tie instantiates it with the code's up_old x = x + 1e-6 on exact rationals, "
+        "valid while fl(x + 1e-6) > x (float64 data below 1.7e10)",
+        "applications.gen_data: only the pairing amplitude-input = returned momenta and the count are checked (exact array comparison), its accept-reject loop is not modelled; "
+        "acceptance-rejection density: z-test at 6.1 sigma (false alarm 1e-9 per test), RNG seeded per case",
+        "not modelled: LinearInterpImportance/interp_sample (rejection on top of LinearInterp), importance_f branch of multi_sampling, binning_shape_function/adaptive_shape"])
 
 
 def bootstrap_quiet():
